@@ -2213,6 +2213,7 @@ def run(chk, ctx):
                 'mask_corners, polarized (see the stats pipeline:dict-order=…,sizes=…). count_data_dict for every configuration; from_data_dict_corrected (zero misidentification) on hand-made dictionaries with flanking contexts, '
                 'inner `calls` dictionaries in a per-SNP order. Complete data sets for the statistics (each population also projected to two sizes m <= n: S, Watterson_theta, theta_L, Tajima_D, pi of the projected spectrum against the expected sub-sample). '
                 'Round 5 extension: the 80 equality patterns among ("-", allele1, allele2, outgroup allele / no key) + 40 (thorough 400) random string triples through count_data_dict / from_data_dict on a one-SNP dictionary; 40 (400) random masks on 1-3-dimensional spectra through Spectrum.fold; from_data_dict_corrected with a zero table and two tables a[outgroup base] + b[derived base] in multiples of 1/64 (force_pos on / off), plus a dictionary with an inconsistent outgroup context (ValueError). '
+                'Stream kind:trim (6 / 40 data sets): FORMAT GT:DP, GT:AD:DP, GT:DP:AD, GT:GQ:DP, GT:GQ with samples without a call written `./.` (trailing fields dropped, as the VCF specification allows): dictionary, sub-sampling, the composed entry point. '
                 'Every spectrum is built with mask_corners=False and with the configured value; on both objects: clauses, then every statistic (S, Watterson_theta, theta_L, pi, Tajima_D, Zengs_E / S, Fst) '
                 'and derived quantity (sample_sizes, Npop, fold, project, marginalize) one by one with the object compared before/after, then the clauses again on the same object; chunk spectra and bootstraps likewise '
                 '(lines with allele frequency 0 or 1 and population subsets put usable SNPs into the corner entries: see the stats cfg:corner-entries, pure:corners). '
@@ -2258,6 +2259,9 @@ def run(chk, ctx):
         check_dataset(chk, ctx, gen_dict_dataset(rng, tier, addinfo='mixed'), rng)
     for it in range(ndp):
         check_dataset(chk, ctx, gen_dp_dataset(rng, tier), rng)
+    rng3 = common.Rng(ctx['seed'], 'C13-trim')                # own stream, own keys (…:trailing-fields-dropped)
+    for it in range(6 if tier == 'quick' else 40):
+        check_dataset(chk, ctx, gen_trim_dataset(rng3, tier), rng3)
 
 def replay(chk, ctx, data):
     inp = data.get('input', {}) or {}
